@@ -35,7 +35,7 @@ RULE = ('random small lenses (2-6 optical interfaces at their paraxial focus, EP
         'value = nominal), extreme (tilt / radius so that rays fail), failpoint (NaN injected into Paraxial.f2 at chosen '
         'evaluations); non-trivial = (>= 2 perturbations or >= 5 rows) and an operand column that is not constant; '
         'distinct = distinct case hash')
-TIERS = {'quick': dict(shards=16, cases=2, budget_s=45), 'thorough': dict(shards=16, cases=150, budget_s=440)}
+TIERS = {'quick': dict(shards=16, cases=2, budget_s=240), 'thorough': dict(shards=16, cases=150, budget_s=440)}
 MIN_NONTRIVIAL = {'quick': 15, 'thorough': 250}
 MIN_EVALS = {
     'row-reproduced': {'quick': 150, 'thorough': 3000},
